@@ -47,6 +47,10 @@ class P:
             line = "mirror %s %d %s %d %s" % (proto, mx, hx(dst), port, " ".join("%s %s" % (hx(s), hx(p)) for s, p in dg))
             self.cj[line] = {"cmd": "mirror", "proto": proto, "udpsize": mx, "dst": "127.0.0.1", "port": port,
                              "dgrams": [[s.hex(), p.hex()] for s, p in dg]}
+            # every third case: the datagrams reach the mirror goroutine in BURSTS (3 or 8 are in its queue before it runs): each is
+            # still re-emitted with its own source, lengths and payload, in order
+            if i % 3 == 2:
+                self.cj[line]["burst"] = rng.choice([3, 8])
             out.append(line)
         # the copy the WORKER makes for the mirror goroutine (vflow/ipfix.go, vflow/sflow.go): real workers with mirroring on, the
         # mirror queue read only after all datagrams were processed (an aliased or reused buffer is then visibly overwritten)
